@@ -1,14 +1,18 @@
 """C04 - formatting and comments outside the edited element are preserved byte for byte."""
-from contracts import k_offset
+from contracts import k_offset, k_indent
 from pyvc.contract import verify_all
 from pyvc import native
 
 
 def run(rep, tier, seed):
-    # P: frame of the text kernel (every edit is a local splice): obligations put_src.frame.* and put_src.splice
-    verify_all(rep, [s for s in k_offset.specs_text('C04') if s.name == 'put_src'])
+    # P: frame of the text kernel (every edit is a local splice): obligations put_src.frame.* and put_src.splice;
+    #    frame of the re-indentation kernel: only lines of the given set change, and only their leading blanks
+    verify_all(rep, [s for s in k_offset.specs_text('C04') if s.name == 'put_src'] + k_indent.specs('C04'))
+    sec = native.run('b_frame', 'trivia_classes', {'tier': tier}, timeout=3600)
+    rep.bounded(sec)
     sec = native.run('b_frame', 'main', {'props': ['C04'], 'tier': tier, 'seed': seed}, timeout=7200)
     sec['native_entry'] = ('b_frame', 'replay')
     rep.bounded(sec)
-    rep.remainder = ('trivia selection (leading_trivia/trailing_trivia), separator / continuation repair and SrcEdit '
-                     'policy: bounded token-level frame check only')
+    rep.remainder = ('trivia selection: leading_trivia exhaustively up to 5 (thorough 7) lines of line classes, trailing_trivia '
+                     'only through the token-level frame check; separator / continuation repair and SrcEdit policy: bounded '
+                     'token-level frame check only')
